@@ -12,6 +12,7 @@ type kase struct {
 	data   []any
 	stream string
 	arith  *arithProbe // non-nil: t is filled in after the model has been asked for the value of op(l, r)
+	parsed *tm         // non-nil: the tree the script parser builds from the text of t (known finding C12-fn-arg-rotation)
 }
 
 // arithProbe asks the model for the value V of `l op r` and then checks the scripts
@@ -368,4 +369,60 @@ func (g *rgen) kase() kase {
 		data[i] = g.element()
 	}
 	return kase{t: g.boolean(1 + g.r.Intn(4)), data: data, stream: "random"}
+}
+
+// hasFnArgApp reports whether some match/search application has an operator application as its second
+// argument: the parser's precedence correction takes such an argument apart (C12-fn-arg-rotation).
+func hasFnArgApp(t *tm) bool {
+	switch t.kind {
+	case 'u':
+		return hasFnArgApp(t.a)
+	case 'b':
+		if (t.op == "match" || t.op == "search") && (t.b.kind == 'u' || t.b.kind == 'b') {
+			return true
+		}
+		return hasFnArgApp(t.a) || hasFnArgApp(t.b)
+	}
+	return false
+}
+
+// fnargFamily: match/search whose second argument is an operator application, in several contexts,
+// together with the tree precedentCorrect turns the text into:
+//
+//	f(L, g(P))      is read as  g(f(L, P))        g in length, count, !
+//	f(L, (A op B))  is read as  (f(L, A) op B)
+func fnargFamily(emit func(kase)) {
+	els := []any{
+		map[string]any{"a": []any{int64(7)}, "s": "abc"}, map[string]any{"a": "b", "s": "b"},
+		map[string]any{"a": []any{}, "s": ""}, map[string]any{"s": "1"}, int64(3),
+	}
+	ls := []*tm{cst("b"), cst("abc"), pth(child(false, "s"))}
+	pa := pth(child(false, "a"))
+	type pair struct{ orig, parsed *tm }
+	var shapes []pair
+	for _, f := range []string{"match", "search"} {
+		for _, l := range ls {
+			for _, g := range []string{"length", "count", "not"} {
+				shapes = append(shapes, pair{bin(f, l, un(g, pa)), un(g, bin(f, l, pa))})
+			}
+			for _, op := range []string{"add", "or", "eq", "lt"} {
+				for _, ab := range [][2]*tm{{cst("a"), cst("b")}, {pa, cst(int64(1))}, {cst(true), pth(child(false, "s"))}} {
+					shapes = append(shapes, pair{bin(f, l, bin(op, ab[0], ab[1])), bin(op, bin(f, l, ab[0]), ab[1])})
+				}
+			}
+		}
+	}
+	ctx := []func(*tm) *tm{
+		func(t *tm) *tm { return t },
+		func(t *tm) *tm { return bin("or", t, cst(true)) },
+		func(t *tm) *tm { return bin("or", cst(false), t) },
+		func(t *tm) *tm { return bin("and", cst(true), t) },
+		func(t *tm) *tm { return bin("eq", t, cst(nothingV{})) },
+		func(t *tm) *tm { return un("not", t) },
+	}
+	for _, sh := range shapes {
+		for _, c := range ctx {
+			emit(kase{t: c(sh.orig), parsed: c(sh.parsed), data: els, stream: "fnarg"})
+		}
+	}
 }
